@@ -19,6 +19,19 @@ CHECKS = {
              '(C01) nor exactness of the conflict *set* beyond per-cell bookkeeping. Trusted: ' + TB,
         technique='MIR path-table extraction (custom rustc_private driver) + finite-model comparison with the specification table',
         ref='§4 C03'),
+    'C15': dict(
+        level='other',
+        text='Every call that starts iterating a std HashMap/HashSet whose hasher type parameter is RandomState (read from '
+             'the resolved generic arguments; FNV item sets and IndexMap are deterministic and are not sources) is '
+             'classified by its consumer; anything that lets hash order reach an ordered result (Vec::push, index '
+             'allocation, first-match, formatting) is a violation unless it is one of 7 listed, individually justified sites. '
+             'Thorough tier additionally checks in the MIR of the repository\'s own generated parsers that start-up data '
+             'is obtained through OnceLock::get_or_init and that no static mut exists.',
+        note='Necessary condition for run-to-run determinism of numbering, tables and generated code; not a proof of '
+             'byte-identical output. Assumes std HashMap/HashSet with RandomState are the only non-deterministic '
+             'iteration sources. Trusted: ' + TB,
+        technique='type-resolved order-taint analysis over MIR (hasher read from generic arguments) with consumer classification',
+        ref='§4 C15'),
     'C16': dict(
         level='proof',
         text='The four derived views of the state table (tokens with actions, shift tokens, core reductions, reduce-only '
